@@ -30,7 +30,7 @@ CHECK = dict(
                  'a send that returned false is kept open (it may still be delivered, at most once); try_send/try_recv returning false need no cause'],
     technique='runtime monitoring: per-value ledger (attempted / returned true / received by whom, with global call and return stamps) checked online and at quiescence '
               '(exactly once, per-sender order, cause of every false, drained-before-closed), demand-driven workload with a ledger-gated stuck detector, '
-              'seeded arrival-order scripts, heap-owning values under ASan+UBSan, TSan for cross-vCPU sharing, OS-level stall points between a failed push/pop and the waiter registration, CPU shapes',
+              'seeded arrival-order scripts, heap-owning values under ASan+UBSan, TSan for cross-vCPU sharing, OS-level stall points between a failed push/pop and the waiter registration, CPU shapes; plus scripted rounds: fan-out (one value per blocked receiver) and close() right after a successful try_send()',
     level_text='Held on the seeded executions actually run, for the execution classes that the recorded defects cannot reach (one sender on an unbuffered channel; buffered channels used from one '
                'vCPU): every value whose send/try_send returned true was received exactly once, per sender in order, nothing was received that was not sent, every false send/recv '
                'had a cause (close requested, or the deadline had passed on the runtime clock), no recv reported closed before the values sent before close() were handed out, '
